@@ -1,6 +1,6 @@
 (* C15 -- every shipped language, style and braille code loads and works (the file-location layer and the generated
    obligations over the shipped rule tree).  Statements only. *)
-From MC Require Import Lib.Base Model.FindFile Proofs.FindFileP Gen.RulesTree Proofs.RulesTreeP Gen.UnicodeEntries Proofs.UnicodeEntriesP.
+From MC Require Import Lib.Base Model.FindFile Proofs.FindFileP Gen.RulesTree Proofs.RulesTreeP Model.RuleAst Proofs.RuleAstP Gen.UnicodeEntries Proofs.UnicodeEntriesP.
 From Coq Require Import String.
 Local Open Scope N_scope.
 
@@ -69,8 +69,20 @@ Theorem language_directories_are_selectable :
 Proof. exact language_directories_selectable. Qed.
 Print Assumptions language_directories_are_selectable.
 
-(* every character of every language's Unicode tables is spoken under every condition, unless it is a space, an
-   invisible operator, a private-use marker or the comma (whose silence is decided by context) *)
+(* every character of every language's Unicode tables is spoken whatever its conditions evaluate to, unless it is a
+   space, an invisible operator, a private-use marker or the comma (whose silence is decided by context): the
+   replacements are generated as rule ASTs, the analysis runs inside Coq and its meaning is a theorem about the
+   evaluation of a replacement under an arbitrary stream of condition outcomes *)
 Theorem no_character_is_silenced : forallb (fun f => forallb entry_ok (snd f)) unicode_entries = true.
 Proof. exact L_no_character_is_silenced. Qed.
 Print Assumptions no_character_is_silenced.
+
+Theorem every_character_speaks : forall file entries c rs, In (file, entries) unicode_entries -> In (c, rs) entries ->
+  may_be_silent c = false -> forall s, (0 < fst (evals rs s))%nat.
+Proof. exact L_every_character_speaks. Qed.
+Print Assumptions every_character_speaks.
+
+(* the analysis is sound for every replacement, not only the generated ones *)
+Theorem speaks_analysis_is_sound : forall rs, speaks_list rs = true -> forall s, (0 < fst (evals rs s))%nat.
+Proof. exact L_speaks_list_sound. Qed.
+Print Assumptions speaks_analysis_is_sound.
